@@ -508,6 +508,12 @@ pub fn judge(t: &RefTree, out: &[u8]) -> Result<(), (String, String)> {
             return Err(("builder-locals-share-slot".into(), format!("{:?}", slot)));
         }
     }
+    // one declared slot per local the tree mentions: what only a sequence that was never attached
+    // (or no instruction at all) mentions is not part of the function
+    let used = slot.keys().filter(|k| **k == 1 || **k == 2).count();
+    if body.locals.len() != used {
+        return Err(("builder-declared-locals".into(), format!("the tree uses {} non-parameter locals, the emitted function declares {:?}", used, body.locals)));
+    }
     Ok(())
 }
 
